@@ -540,4 +540,284 @@ theorem rbLoopC (c : Ctx) (b : Block) (blk : BlockMeta) (hbnd : (b.txs.map (·.i
           · rw [h1]; exact ⟨htb, by rw [hid]; exact List.mem_cons_self ..⟩
           · exact ⟨h1, List.mem_cons_of_mem _ h2⟩
 
+
+-- ------------------------------------------------------------------ the credit relation right before the purge
+
+theorem gameOut_owned {e : Spec.Pending.Env} {t : Tx} {j : Nat} {w : Wid} {bb : Bool} (h : GameOut e.own t j w bb) :
+    ∃ o, t.outs[j]? = some o ∧ ownedOut e o = true := by
+  obtain ⟨o, ch, ho, hsb, hown, _⟩ := h
+  refine ⟨o, ho, ?_⟩
+  unfold ownedOut
+  rw [hown]
+  cases hc : o.cls <;> simp_all [Cls.isStaking, Cls.isBinding]
+
+/-- FROM THE LOOP TO THE RELATION.  `hval` / `hall` are the two facts about the mined credit table of the store the
+    loop starts from (C01): a credit under a key of a transaction of the block is the credit of an owned output, with
+    that output's amount, class and script hash; every owned output of a transaction of the block has a credit. -/
+theorem credRel_of_grow {e : Spec.Pending.Env} {blk : BlockMeta} {b : Block} {ids : List TxId} {s s1 : Store}
+    {P : List Tx} (hcr : CredRel e s P)
+    (G : CredGrow e.own blk (fun t => t ∈ b.txs ∧ t.id ∈ ids) s s1)
+    (hval : ∀ t ∈ b.txs, ∀ j cr, AMap.get s.credits ⟨t.id, blk, j⟩ = some cr →
+      ∃ o, t.outs[j]? = some o ∧ ownedOut e o = true ∧ cr.amt = o.amt ∧ cr.cls = uclassOf o.cls ∧ cr.sh = o.addr)
+    (hall : ∀ t ∈ b.txs, ∀ j o, t.outs[j]? = some o → ownedOut e o = true →
+      (AMap.get s.credits ⟨t.id, blk, j⟩).isSome = true) :
+    CredRel e s1 (P ++ b.txs.filter (fun t => !t.cb && ids.contains t.id)) := by
+  have hfil : ∀ t, t ∈ b.txs.filter (fun t => !t.cb && ids.contains t.id) ↔ t ∈ b.txs ∧ t.cb = false ∧ t.id ∈ ids := by
+    intro t; simp [List.mem_filter]
+  refine ⟨fun id j cr hg => ?_, fun t ht j o ho hown => ?_, fun w bb id j hg => ?_, fun t ht j w bb hgo => ?_⟩
+  · rcases G.pcs (id, j) cr hg with h0 | ⟨t, ⟨htb, hti⟩, hcb, q1, _, q3⟩
+    · obtain ⟨t, ht, r⟩ := hcr.csound id j cr h0
+      exact ⟨t, List.mem_append_left _ ht, r⟩
+    · obtain ⟨cr0, hg0, hv⟩ := cv_some q3
+      simp only [Prod.mk.injEq] at hv
+      obtain ⟨o, ho, hown, v1, v2, v3⟩ := hval t htb j cr0 hg0
+      exact ⟨t, List.mem_append_right _ ((hfil t).2 ⟨htb, hcb, hti⟩), q1.symm, o, ho, hown,
+        by rw [hv.1]; exact v1, by rw [hv.2.1]; exact v2, by rw [hv.2.2]; exact v3⟩
+  · rcases List.mem_append.1 ht with ht | ht
+    · exact G.pcm _ (hcr.ccomplete t ht j o ho hown)
+    · obtain ⟨htb, hcb, hti⟩ := (hfil t).1 ht
+      exact G.pcc t ⟨htb, hti⟩ hcb j (List.getElem?_eq_some_iff.1 ho).1 (by rw [cv_isSome]; exact hall t htb j o ho hown)
+  · rcases G.pgs w bb id j hg with h0 | ⟨t, ⟨htb, hti⟩, hcb, q1, q2⟩
+    · obtain ⟨t, ht, r⟩ := hcr.gsound w bb id j h0
+      exact ⟨t, List.mem_append_left _ ht, r⟩
+    · exact ⟨t, List.mem_append_right _ ((hfil t).2 ⟨htb, hcb, hti⟩), q1.symm, q2⟩
+  · rcases List.mem_append.1 ht with ht | ht
+    · exact G.pgm _ (hcr.gcomplete t ht j w bb hgo)
+    · obtain ⟨htb, hcb, hti⟩ := (hfil t).1 ht
+      obtain ⟨o, ho, hown⟩ := gameOut_owned hgo
+      exact G.pgc t ⟨htb, hti⟩ hcb j w bb hgo (by rw [cv_isSome]; exact hall t htb j o ho hown)
+
+theorem eraseBlocks_buckets (s : Store) (hs : List Nat) :
+    (hs.foldl (fun (s : Store) h => { s with blocks := AMap.erase s.blocks h }) s).pendCred = s.pendCred ∧
+    (hs.foldl (fun (s : Store) h => { s with blocks := AMap.erase s.blocks h }) s).pendGame = s.pendGame :=
+  foldl_inv (fun (a : Store) => a.pendCred = s.pendCred ∧ a.pendGame = s.pendGame) _ _ _ ⟨rfl, rfl⟩ (fun _ _ _ ha => ha)
+
+/-- disconnecting a tip block WITHOUT a block record leaves all four pending buckets alone -/
+theorem disconnect_norec_side (c : Ctx) (s s' : Store) (h : Nat) (hd : disconnectBlock c s h = .ok s')
+    (hsync : s.syncedTo = h) (hblk : AMap.get s.blocks h = none) : pendSide s' = pendSide s := by
+  unfold disconnectBlock at hd
+  have h0 : h ≠ 0 := by intro hc; rw [if_pos hc] at hd; cases hd
+  rw [if_neg h0, if_neg (by omega : ¬ h > s.syncedTo)] at hd
+  simp only [bind, Except.bind] at hd
+  cases hr : rollback c s h with
+  | error e => rw [hr] at hd; cases hd
+  | ok s2 =>
+    rw [hr] at hd
+    simp only [pure, Except.pure, Except.ok.injEq] at hd
+    have hps : pendSide s' = pendSide s2 := by rw [← hd]; rfl
+    unfold rollback at hr
+    have hhs : (List.range (s.syncedTo + 1 - h)).map (fun k => s.syncedTo - k) = [h] := by
+      rw [hsync]
+      have : h + 1 - h = 1 := by omega
+      rw [this]; rfl
+    simp only [] at hr
+    rw [hhs] at hr
+    simp only [List.foldlM, bind, Except.bind] at hr
+    cases hb : rollbackBlockAt c { s := s, bals := s.balance } h with
+    | error e => rw [hb] at hr; cases hr
+    | ok acc =>
+      rw [hb] at hr
+      simp only [pure, Except.pure, Except.ok.injEq] at hr
+      rw [rollbackBlockAt_eq] at hb
+      simp only [hblk] at hb
+      simp only [pure, Except.pure, Except.ok.injEq] at hb
+      rw [hps, ← hr, ← hb]
+      rfl
+
+/-- the relation only depends on the four pending buckets -/
+theorem credRel_of_pendSide {e : Spec.Pending.Env} {s s' : Store} {P : List Tx} (h : CredRel e s P)
+    (hs : pendSide s' = pendSide s) : CredRel e s' P := by
+  simp only [pendSide, Prod.mk.injEq] at hs
+  exact h.congr hs.2.2.1 hs.2.2.2
+
+/-- ROLLBACK PHASE with the accumulator of the loop in view: right before the purge the pending stores represent `P` plus
+    the recorded non-coinbase transactions of `b` (the first component of `rollback_phase`) -/
+theorem rollback_phase_acc (rank : TxId → Nat) (c : Ctx) (s : Store) (b : Block) (P : List Tx) (ids : List TxId)
+    (acc : RbAcc)
+    (hloop : ids.reverse.foldlM (rbStep c ⟨b.height, b.id⟩) { s := s, bals := s.balance, heights := [b.height] } = .ok acc)
+    (hrec : ∀ id ∈ ids, ∃ loc t, AMap.get s.txrecs (id, ⟨b.height, b.id⟩) = some loc ∧
+        c.node.txByFileLoc loc = some t ∧ t.id = id ∧ t ∈ b.txs)
+    (hidnd : ids.Nodup) (hbnd : (b.txs.map (·.id)).Nodup) (hrel : PendRel rank s P)
+    (hnp : ∀ id ∈ ids, AMap.get s.pending id = none)
+    (hrk : ∀ t ∈ b.txs, ∀ i ∈ t.ins, rank i.tx < rank t.id) :
+    PendRel rank (acc.heights.foldl (fun s h => { s with blocks := AMap.erase s.blocks h }) acc.s)
+      (P ++ b.txs.filter (fun t => !t.cb && ids.contains t.id)) := by
+  obtain ⟨L1, L2, _, _, _, _⟩ := rbLoop rank c b ⟨b.height, b.id⟩ hbnd hrk ids.reverse _ acc hloop
+    ((List.reverse_perm ids).nodup_iff.2 hidnd) (fun id hid => hrec id (List.mem_reverse.1 hid)) hrel.wf
+    (fun id hid => hnp id (List.mem_reverse.1 hid))
+  obtain ⟨e1, e2⟩ := eraseBlocks_pend acc.s acc.heights
+  have hfil : ∀ t, t ∈ b.txs.filter (fun t => !t.cb && ids.contains t.id) ↔ t ∈ b.txs ∧ t.cb = false ∧ t.id ∈ ids := by
+    intro t; simp [List.mem_filter]
+  refine ⟨PendWF.congr L1 e1 e2, fun id t => ?_, ?_⟩
+  · rw [e1, L2, List.mem_append, hfil]
+    show AMap.get s.pending id = some t ∨ _ ↔ _
+    rw [hrel.ids]
+    constructor
+    · rintro (⟨h1, h2⟩ | ⟨h1, h2, h3, h4⟩)
+      · exact ⟨Or.inl h1, h2⟩
+      · exact ⟨Or.inr ⟨h2, h4, by rw [h3]; exact List.mem_reverse.1 h1⟩, h3⟩
+    · rintro ⟨h1 | ⟨h1, h2, h3⟩, h4⟩
+      · exact Or.inl ⟨h1, h4⟩
+      · exact Or.inr ⟨List.mem_reverse.2 (by rw [← h4]; exact h3), h1, h4, h2⟩
+  · rw [List.map_append, List.nodup_append]
+    refine ⟨hrel.nodup, List.Nodup.sublist (List.filter_sublist.map _) hbnd, ?_⟩
+    intro x hx y hy hxy
+    obtain ⟨t, ht, rfl⟩ := List.mem_map.1 hx
+    obtain ⟨t', ht', rfl⟩ := List.mem_map.1 hy
+    have h1 := hrel.pending_of_mem ht
+    have h2 := hnp t'.id ((hfil t').1 ht').2.2
+    have hxy' : t.id = t'.id := hxy
+    rw [hxy', h2] at h1; cases h1
+
+-- ------------------------------------------------------------------ THE DISCONNECT STEP
+
+/-- DISCONNECT keeps the credit relation.  `hrel'` is the result of `disconnect_step_inv` (the pending records after the
+    step are the specification's list `P'`); no hypothesis about the buckets after the step. -/
+theorem disconnect_cred_store (rank : TxId → Nat) (E : HEnv) (n : Node) (s s' : Store) (c0 : List Block) (b : Block)
+    (P P' : List Tx)
+    (hI : Inv (E.ctx n) s (c0 ++ [b])) (hV : ChainValid E.own (c0 ++ [b])) (hH : HeightsOK (c0 ++ [b]))
+    (hk : AMap.get n.known b.id = some b)
+    (hrel : PendRel rank s P) (hcr : CredRel E.env s P) (hcons : Consistent (c0 ++ [b]) P)
+    (hbnd : (b.txs.map (·.id)).Nodup) (hrk : ∀ t ∈ b.txs, ∀ i ∈ t.ins, rank i.tx < rank t.id)
+    (h : disconnectBlock (E.ctx n) s b.height = .ok s')
+    (hrel' : PendRel rank s' P') : CredRel E.env s' P' := by
+  have hbh : b.height = c0.length := hH c0.length b (by simp)
+  have hsync : s.syncedTo = b.height := by
+    have := hI.syncedTo
+    rw [List.length_append, List.length_singleton] at this
+    omega
+  have hbm : b ∈ c0 ++ [b] := List.mem_append_right _ List.mem_cons_self
+  rcases inv_tip_records hI hV hH hk with ⟨ids, hblk, hnd, hrec, -⟩ | ⟨hblk, -⟩
+  · -- the block has a record: the loop, the erasure of the block record, the purge
+    obtain ⟨acc, hloop, hps⟩ := disconnect_tip_unfold (E.ctx n) s s' b.height b.id ids h hsync hblk
+    have hPb : ∀ t ∈ b.txs, hasId P t.id = false := by
+      intro t ht
+      cases hh : hasId P t.id with
+      | false => rfl
+      | true =>
+        obtain ⟨x, hx, hid⟩ := (hasId_iff _ _).1 hh
+        have := (hcons x hx).1
+        rw [onChain_append, onChain_single, hid, (hasId_iff _ _).2 ⟨t, ht, rfl⟩] at this
+        simp at this
+    have hnp : ∀ id ∈ ids, AMap.get s.pending id = none := by
+      intro id hid
+      obtain ⟨_, t, _, _, htid, htb⟩ := hrec id hid
+      have := hPb t htb
+      rw [hrel.hasId, htid] at this
+      cases hg : AMap.get s.pending id with
+      | none => rfl
+      | some x => rw [hg] at this; cases this
+    have hrel1 := rollback_phase_acc rank (E.ctx n) s b P ids acc hloop hrec hnd hbnd hrel hnp hrk
+    have G := (rbLoopC (E.ctx n) b ⟨b.height, b.id⟩ hbnd ids.reverse _ acc hloop
+      ((List.reverse_perm ids).nodup_iff.2 hnd) (fun id hid => hrec id (List.mem_reverse.1 hid))).congr
+      (T' := fun t => t ∈ b.txs ∧ t.id ∈ ids) (fun t => by rw [List.mem_reverse])
+    have hcr1 : CredRel E.env acc.s (P ++ b.txs.filter (fun t => !t.cb && ids.contains t.id)) := by
+      refine credRel_of_grow (e := E.env) hcr G ?_ ?_
+      · intro t ht j cr hg
+        obtain ⟨o, w, ch, ho, hown, hsame⟩ := inv_credit_value_block hI hV hbm ht hg
+        refine ⟨o, ho, ?_, hsame.amt, hsame.cls, hsame.sh⟩
+        rw [ownedOut_eq_ownerOf]
+        show (MW.Spec.Books.ownerOf E.own o).isSome = true
+        rw [show MW.Spec.Books.ownerOf E.own o = some (w, ch) from hown]; rfl
+      · intro t ht j o ho hown
+        rw [ownedOut_eq_ownerOf] at hown
+        exact inv_cb_credits hI hV t ht j o ho hown
+    obtain ⟨b1, b2⟩ := eraseBlocks_buckets acc.s acc.heights
+    have hcr1' := hcr1.congr b1 b2
+    have hcfr := purgeFold_cfr E.own acc.cb _ (keyId_of_rel hrel1)
+    simp only [pendSide, Prod.mk.injEq] at hps
+    have hrel2 := hrel'.congr hps.1.symm hps.2.1.symm
+    exact (hcr1'.frame hrel1 hrel2 hcfr).congr hps.2.2.1 hps.2.2.2
+  · -- no record: the four buckets are unchanged
+    have hps := disconnect_norec_side (E.ctx n) s s' b.height h hsync hblk
+    have hps' := hps
+    simp only [pendSide, Prod.mk.injEq] at hps'
+    have hrel2 : PendRel rank s P' := hrel'.congr hps'.1.symm hps'.2.1.symm
+    exact credRel_of_pendSide (hcr.frame hrel hrel2 (CFrX.refl _ _ _)) hps
+
+
+-- ------------------------------------------------------------------ THE HISTORIES, no hypothesis about the relation
+
+/-- DISCONNECT, at history level: inside the domain `HOK … .disconnect` of `pending_refines` the step keeps `CredRel` -/
+theorem disconnect_cred {rank : TxId → Nat} {E : HEnv} {w : HW} (H : HInvC rank E w) (D : HOK rank E w .disconnect) :
+    CredRel E.env (stepH E w .disconnect).s (stepH E w .disconnect).sp.pend := by
+  have H' := hinv_disconnect H.inv D
+  cases hl : w.sp.chain.getLast? with
+  | none =>
+    have : stepH E w .disconnect = w := by simp only [stepH, hl]
+    rw [this]; exact H.cred
+  | some b =>
+    have hsplit : w.sp.chain = w.sp.chain.dropLast ++ [b] := split_last _ b hl
+    obtain ⟨_, hV, hHt, hk, dom⟩ := D _ b hsplit
+    cases hd : disconnectBlock (E.ctx w.node) w.s b.height with
+    | error e =>
+      have : stepH E w .disconnect = w := by simp only [stepH, hl, hd]
+      rw [this]; exact H.cred
+    | ok s' =>
+      have hst : stepH E w .disconnect =
+          { w with s := s', sp := Spec.Pending.step w.sp (.moved E.env w.sp.chain.dropLast) } := by
+        simp only [stepH, hl, hd]
+      have hI := H.inv.inv
+      have hcons := H.inv.cons
+      rw [hsplit] at hI hcons
+      have hrel' := H'.rel
+      rw [hst] at hrel' ⊢
+      exact disconnect_cred_store rank E w.node w.s s' w.sp.chain.dropLast b w.sp.pend _ hI hV hHt hk H.inv.rel H.cred
+        hcons dom.bnd dom.rk hd hrel'
+
+/-- DOMAIN of an event for the credit relation, FULL: the domain of `pending_refines`, the receive step without its
+    residue clause; nothing about the relation itself -/
+def HOKf (rank : TxId → Nat) (E : HEnv) (w : HW) : HEv → Prop
+  | .recv t => RecvDomC rank E w t
+  | ev => HOK rank E w ev
+
+theorem HOKf.toC {rank : TxId → Nat} {E : HEnv} {w : HW} (H : HInvC rank E w) {ev : HEv} (D : HOKf rank E w ev) :
+    HOKc rank E w ev := by
+  cases ev with
+  | node n => exact D
+  | vol v => exact D
+  | recv t => exact D
+  | connect b => exact D
+  | disconnect => exact ⟨D, disconnect_cred H D⟩
+
+theorem hinvc_step_full {rank : TxId → Nat} {E : HEnv} {w : HW} (H : HInvC rank E w) (ev : HEv) (D : HOKf rank E w ev) :
+    HInvC rank E (stepH E w ev) := hinvc_step H ev (D.toC H)
+
+theorem hinvc_run_full {rank : TxId → Nat} {E : HEnv} : ∀ (evs : List HEv) (w : HW), HInvC rank E w →
+    (∀ x ∈ worldsH E w evs, HOKf rank E x.1 x.2) → HInvC rank E (runH E w evs) := by
+  intro evs
+  induction evs with
+  | nil => intro w H _; exact H
+  | cons ev evs ih =>
+    intro w H hD
+    have h1 := hinvc_step_full H ev (hD (w, ev) (by simp [worldsH]))
+    exact ih _ h1 (fun x hx => hD x (by simp [worldsH, hx]))
+
+/-- every history inside the full domain is inside the domain of the partial theorem (so `credit_refines_partial`
+    applies to it) -/
+theorem hokc_of_full {rank : TxId → Nat} {E : HEnv} : ∀ (evs : List HEv) (w : HW), HInvC rank E w →
+    (∀ x ∈ worldsH E w evs, HOKf rank E x.1 x.2) → ∀ x ∈ worldsH E w evs, HOKc rank E x.1 x.2 := by
+  intro evs
+  induction evs with
+  | nil => intro w _ _ x hx; cases hx
+  | cons ev evs ih =>
+    intro w H hD x hx
+    have D0 := hD (w, ev) (by simp [worldsH])
+    simp only [worldsH, List.mem_cons] at hx
+    rcases hx with rfl | hx
+    · exact D0.toC H
+    · exact ih _ (hinvc_step_full H ev D0) (fun y hy => hD y (by simp [worldsH, hy])) x hx
+
+/-- THE CREDIT RELATION ALONG ALL HISTORIES of `pending_refines` (the statement of `C09_full_credit_relation`) -/
+theorem credit_relation_full (rank : TxId → Nat) (E : HEnv) (w : HW) (evs : List HEv) (H : HInvC rank E w)
+    (hD : ∀ x ∈ worldsH E w evs,
+      match x.2 with
+      | .recv t => RecvDomC rank E x.1 t
+      | ev => HOK rank E x.1 ev) :
+    CredRel E.env (runH E w evs).s (runH E w evs).sp.pend :=
+  (hinvc_run_full evs w H (fun x hx => by
+    have := hD x hx
+    obtain ⟨xw, xe⟩ := x
+    cases xe <;> exact this)).cred
+
 end MW.Lemmas.PendHist.CredRb
